@@ -10,6 +10,11 @@ src, sid, checks = sys.argv[1], sys.argv[2], sys.argv[3:]
 VERIF = os.path.dirname(os.path.dirname(os.path.abspath(__file__)))
 dst = os.path.join(VERIF, "seeded", sid)
 os.makedirs(dst, exist_ok=True)
+_prev = None
+try:
+    _prev = json.load(open(os.path.join(dst, "meta.json"))).get("confirmation")
+except Exception:
+    pass
 for f in ("patch.diff", "demo.py", "meta.json"):
     if os.path.exists(os.path.join(src, f)):
         shutil.copy(os.path.join(src, f), os.path.join(dst, f))
@@ -56,7 +61,7 @@ if os.path.exists(mp):
         meta = json.load(open(mp))
     except Exception:
         meta = {"raw": open(mp).read()}
-old = meta.get("confirmation")
+old = meta.get("confirmation") or _prev
 if isinstance(old, dict) and isinstance(old.get("checks"), dict) and "checks" in ran:
     merged = dict(old["checks"])
     merged.update(ran["checks"])
